@@ -60,6 +60,8 @@ def gen_cases(ctx):
     for n in range(nuv):
         out.append({"k": "uv", "seed": rng.randrange(10**9), "meth": rng.choice([0, 0, 0, 1]), "exact": n % 2 == 0,
                     "N": rng.randint(2, 4), "jmax": rng.randint(2, 6), "imax": rng.randint(2, 7), "P": 12})
+    out.append({"k": "landrow", "layout": "sparse", "scale": 1.0, "depths": [5.0, 30.0, 60.0, 90.0]})
+    out.append({"k": "landrow", "layout": "sparse", "scale": 0.5, "depths": [95.0, 12.5, 70.0]})
     import c02_float
 
     for fdesc in c02_float.gen_float_cases(rng, 60 if ctx.quick else 1500):
@@ -624,7 +626,52 @@ def eval_file(desc, ctx):
                                        "problems": len(problems)}}
 
 
+def eval_landrow(desc, ctx):
+    """end to end through ladim.main: a release file whose FIRST row lies on land, followed by sea particles at one
+    position and different depths in a vertically sheared current, sparse output at every step: each sea particle must be
+    displaced by the current interpolated at ITS OWN depth (oracle only)"""
+    import run_ladim as rl
+    from ladim.ROMS import Grid
+
+    d = ctx.subdir("c02land")
+    for f in d.glob("*"):
+        f.unlink()
+    imax, jmax, N, dt, dx = 12, 9, 4, 600, 1000.0
+    mask = np.ones((jmax, imax))
+    mask[2, 2] = 0
+    ulev = np.array([0.08, 0.16, 0.32, 0.64]) * desc["scale"]
+    u = np.broadcast_to(ulev[None, :, None, None], (2, N, jmax, imax - 1)).copy()
+    rf.write_roms(d / "f.nc", imax=imax, jmax=jmax, N=N, times=[0, 3600], u=u, v=0.0, h=100.0, mask=mask, dx=dx)
+    depths = desc["depths"]
+    rf.write_release(d / "r.rls", [[0, 2.0, 2.0, 5.0]] + [[0, 7.0, 5.0, z] for z in depths])
+    conf = rf.base_config(start=0, stop=2 * dt, dt=dt, forcing_file=d / "f.nc", release_file=d / "r.rls", out_file=d / "o.nc",
+                          advection="EF", output_period=dt, layout=desc["layout"])
+    rl.run_main(conf, d)
+    recs = rl.read_sparse(d / "o.nc")["records"] if desc["layout"] == "sparse" else None
+    g = Grid(filename=str(d / "f.nc"))
+    zr = np.asarray(g.z_r, dtype=float)[:, 5 - g.j0, 7 - g.i0]
+    problems = []
+    if recs is not None and len(recs) >= 2:
+        r0, r1 = recs[0], recs[1]
+        x0 = {int(q): float(x) for q, x in zip(r0["vars"]["pid"], r0["vars"]["X"])}
+        x1 = {int(q): float(x) for q, x in zip(r1["vars"]["pid"], r1["vars"]["X"])}
+        for k, z in enumerate(depths):
+            q = k + 1
+            K, A = own_level(zr, z)
+            want = 7.0 + (A * ulev[K - 1] + (1 - A) * ulev[K]) * dt / dx
+            if q not in x1:
+                problems.append(f"sea particle {q} (depth {z}) is missing from the second record")
+            elif abs(x1[q] - want) > 1e-9:
+                problems.append(f"sea particle {q} at depth {z} moved from {x0.get(q)} to {x1[q]}; the current at its own depth takes it to {want}")
+    else:
+        problems.append("no two records to compare")
+    return {"ints": None, "oracle": "; ".join(problems[:2]) or None, "nontrivial": ("landrow", desc["layout"], desc["scale"]), "kind": "e2e-land-row",
+            "observed": {"depths": depths}}
+
+
 def eval_case(desc, ctx):
+    if desc["k"] == "landrow":
+        return eval_landrow(desc, ctx)
     if desc["k"] == "fbits":
         # the floating-point model of the kernel: the compiled trilinear on eight node values in general position,
         # compared BIT FOR BIT with Model/TrilinearFloat.v (leading 9: Corr/C02All dispatches to Corr/C02F), and an
